@@ -100,34 +100,25 @@ theorem c18_filter_plain (cond : Nat → Nat) (dflt : Nat) (i : UIn) (a : Nat) (
   unfold filterStep condHolds
   by_cases hc : cond a = 0 <;> cases ht : i.trdy <;> simp [h, hc]
 
-/-
-Full-strength statement for `use_condition=True` as documented ("Non-zero return value is
-interpreted as true"): the same as `c18_filter_usecond_partial` below without the hypothesis
-`cond a ≤ 1`.  It is FALSE for the code that exists: transformers.py:248-249 assigns the
-condition value to a one-bit signal, which keeps the least significant bit only (witness below,
-confirmed on the real circuit: condition `arg & 6`, argument 2 → default returned, target not
-called).
--/
--- OBLIGATION c18_filter_usecond_partial : MethodFilter (use_condition=True): executes iff called and (condition false or target ready) - i.e. does not block on the target when the condition is false; target called iff condition true and target ready, with the unchanged argument; default returned when the condition is false. ADDED HYPOTHESIS: the condition function returns a one-bit value (cond a <= 1); wider values are truncated to their LSB by the code (proposed finding)
-theorem c18_filter_usecond_partial (cond : Nat → Nat) (dflt : Nat) (i : UIn) (a : Nat)
-    (h : i.call = some a) (hbit : cond a ≤ 1) :
+-- OBLIGATION c18_filter_usecond : MethodFilter (use_condition=True): executes iff called and (condition value zero or target ready) - i.e. does not block on the target when the condition is false; target called iff condition value non-zero and target ready, with the unchanged argument, and its result is returned; default returned when the condition is false (every condition function incl. multi-bit values, every default)
+theorem c18_filter_usecond (cond : Nat → Nat) (dflt : Nat) (i : UIn) (a : Nat)
+    (h : i.call = some a) :
     ((filterStep true cond dflt i).res.isSome ↔ (cond a = 0 ∨ i.trdy = true)) ∧
     ((filterStep true cond dflt i).tcall.isSome ↔ (cond a ≠ 0 ∧ i.trdy = true)) ∧
     (cond a ≠ 0 → i.trdy = true →
       (filterStep true cond dflt i).tcall = some a ∧ (filterStep true cond dflt i).res = some i.tret) ∧
     (cond a = 0 → (filterStep true cond dflt i).res = some dflt) := by
   unfold filterStep condHolds
-  have : cond a = 0 ∨ cond a = 1 := by omega
-  rcases this with hc | hc <;> cases ht : i.trdy <;> simp [h, hc]
+  by_cases hc : cond a = 0 <;> cases ht : i.trdy <;> simp [h, hc]
 
 -- OBLIGATION c18_filter_nocall : MethodFilter (both modes): without a call nothing executes and the target is not called
 theorem c18_filter_nocall (uc : Bool) (cond : Nat → Nat) (dflt : Nat) (i : UIn) (h : i.call = none) :
     filterStep uc cond dflt i = { res := none, tcall := none } := by
   simp [filterStep, h]
 
-/-- the excluded point of `c18_filter_usecond_partial`: a two-bit condition value with LSB 0 -/
+/-- the former defect F-b6-1 (repaired): a two-bit condition value with LSB 0 counts as true -/
 example : filterStep true (fun x => x &&& 6) 9 { call := some 2, trdy := true, tret := 5 }
-    = { res := some 9, tcall := none } := by decide
+    = { res := some 5, tcall := some 2 } := by decide
 
 -- OBLIGATION c18_product : MethodProduct: executes iff called and all targets are ready; then every target is called with the argument and the result is combiner(results); otherwise no target is called (every number of targets, every combiner)
 theorem c18_product (comb : List Nat → Nat) (i : PIn) :
@@ -298,7 +289,7 @@ end TxV.Transformers
 #print axioms TxV.Transformers.c18_crossbar_exact
 #print axioms TxV.Transformers.c18_map
 #print axioms TxV.Transformers.c18_filter_plain
-#print axioms TxV.Transformers.c18_filter_usecond_partial
+#print axioms TxV.Transformers.c18_filter_usecond
 #print axioms TxV.Transformers.c18_filter_nocall
 #print axioms TxV.Transformers.c18_product
 #print axioms TxV.Transformers.c18_tryproduct
